@@ -279,6 +279,49 @@ def run_assign(case, stt):
         stt.label("step_" + step[0])
 
 
+# -- 5. user subclasses that override a public band accessor ---------------------------------------------------------
+
+
+@st.composite
+def accessor_case(draw):
+    which = draw(st.sampled_from(["oversampled", "own_centre"]))
+    spec = draw(G.signal_spec(classes=["BasebandSignal"] if which == "oversampled" else ["RadioSignal"], nmax=12, nchan_max=12, max_trailing=1))
+    spec.pop("sub", None)
+    nchan = spec["sshape"][0]
+    rng, a, b = _chan_range(draw, nchan)
+    return {"sig": spec, "which": which, "rng": rng, "a": a, "b": b, "t": draw(st.booleans())}
+
+
+def run_accessor(case, stt):
+    """The band model is stated in terms of the PUBLIC center_freq / chan_bw / freq_align: a user subclass that derives one of them (an
+    oversampled filterbank whose channel spacing is 27/32 of the sample rate; a class keeping the centre in a field of its own) is labelled by
+    what its accessors say, before and after slicing."""
+    spec, which = case["sig"], case["which"]
+    cls = G.MyOversampledSignal if which == "oversampled" else G.MyOwnCentreSignal
+    with lib("constructing a user subclass (%s)" % which):
+        z = cls(G.mk_data(spec), **G.sig_kwargs(spec))
+    nchan = spec["sshape"][0]
+    cf = O.fq(spec["cf"])
+    bw = O.hz(z.chan_bw)
+    if which == "oversampled":
+        check(abs(bw - O.fq(spec["sr"]) * F(27, 32)) <= abs(bw) * F(1, 2**50), "harness: overridden chan_bw")
+    al = F({"bottom": 0, "center": 1, "top": 2}[spec["align"] if nchan % 2 == 0 else "center"], 2)
+
+    def model(n0, n):
+        return [cf + bw * (i + al - F(nchan, 2)) for i in range(n0, n0 + n)]
+
+    assert_labels(z, model(0, nchan), 1, "%s subclass: " % which)
+    check(abs(O.hz(z.bandwidth) - nchan * bw) <= abs(nchan * bw) * F(1, 2**48), "{} subclass: bandwidth {} != nchan * chan_bw", which, z.bandwidth)
+    with lib("frequency slice of a user subclass"):
+        y = z[1:, slice(*case["rng"])] if case["t"] and spec["n"] > 1 else z[:, slice(*case["rng"])]
+    check(type(y) is cls, "slice of a {} is a {}", cls.__name__, type(y).__name__)
+    assert_labels(y, model(case["a"], case["b"] - case["a"]), 2, "%s subclass, channels [%d:%d]: " % (which, case["a"], case["b"]))
+    check(abs(O.hz(y.chan_bw) - bw) <= abs(bw) * F(1, 2**50), "{} subclass: chan_bw of the slice {} != {}", which, y.chan_bw, z.chan_bw)
+    stt.nt(case["b"] - case["a"] < nchan)
+    stt.label(which)
+    stt.label("nchan_even" if nchan % 2 == 0 else "nchan_odd")
+
+
 SUBS = [
     Sub("band_model", radio_spec(), run_labels,
         "every radio class, nchan 1..17, alignment, centre/bandwidth over decades and units; non-trivial = even nchan with "
@@ -293,4 +336,8 @@ SUBS = [
         "1..5 steps on ONE radio signal object: look at the labels, assign center_freq / chan_bw / freq_align, move the centre by whole "
         "channels, take a frequency slice -- after every step the labels and band edges must follow the band model of the current metadata; "
         "non-trivial = an assignment after the labels had been looked at, even channel count", quick=1500, thorough=30000),
+    Sub("subclass_accessors", accessor_case(), run_accessor,
+        "user subclasses overriding a public band accessor (BasebandSignal with chan_bw = 27/32 sample_rate; RadioSignal keeping center_freq in "
+        "its own field): labels, bandwidth and the labels / class / chan_bw of frequency slices follow the public accessors; non-trivial = a "
+        "proper channel sub-range", quick=400, thorough=6000),
 ]
